@@ -289,4 +289,32 @@ example : shortDisplay [70, 79, 79, 32, 32, 32, 32, 32, 66, 65, 82] = [70, 79, 7
     shortDisplay [76, 79, 79, 75, 32, 65, 84, 32, 77, 32, 69] = [76, 79, 79, 75, 32, 65, 84, 46, 77, 32, 69] ∧
     shortDisplay [32, 32, 32, 32, 32, 32, 32, 32, 32, 32, 32] = [] := by decide
 
+/-- specification of `make_ascii_lowercase` on one byte -/
+def specLower (b : Nat) : Nat := if 65 ≤ b ∧ b ≤ 90 then b + 32 else b
+
+/-- specification of the displayed name under the Windows-NT case flags of byte 12: bit 3 = base in lower case,
+    bit 4 = extension in lower case -/
+def specLowercaseName (flags : Nat) (raw : List Nat) : List Nat :=
+  specShortName ((if flags / 8 % 2 = 1 then (raw.take 8).map specLower else raw.take 8) ++
+                 (if flags / 16 % 2 = 1 then (raw.drop 8).map specLower else raw.drop 8))
+
+/-- **C08.2, case flags** — `lowercase_name()` is the specification's display name under the case flags. -/
+theorem lowercaseName_spec (e : DirFileEntryData) (h : e.name.length = 11) :
+    e.lowercaseName.asBytes = specLowercaseName e.reserved0 e.name := by
+  have hlen : e.lowercaseRaw.length = 11 := by
+    unfold DirFileEntryData.lowercaseRaw
+    split <;> split <;> simp [h]
+  have := shortName_spec e.lowercaseRaw hlen
+  unfold shortDisplay at this
+  unfold DirFileEntryData.lowercaseName specLowercaseName
+  rw [this]
+  unfold DirFileEntryData.lowercaseRaw
+  rw [DirFileEntryData.lowercaseBasename_eq, DirFileEntryData.lowercaseExt_eq]
+  simp only [decide_eq_true_eq]
+  rfl
+
+example : (sampleEntry.lowercaseName).asBytes = [114, 101, 97, 100, 109, 101, 46, 116, 120, 116] ∧   -- "readme.txt"
+    ({ sampleEntry with reserved0 := 0x08 }.lowercaseName).asBytes = [114, 101, 97, 100, 109, 101, 46, 84, 88, 84] := by
+  decide
+
 end FatVerif.C18
